@@ -131,6 +131,25 @@ def validated_return(rep, prog):
                 thr = [x for x in walk(stmts[-1]["then"]) if x.get("k") == "CXXThrowExpr"]
                 if thr:
                     last_throw = thr[0]
+    if last_throw is None:
+        # equivalent form: the failure is thrown right after the loop (reached only when all N attempts failed, because every
+        # successful attempt returns / breaks out to a return)
+        seq = fn["body"].get("c", [])
+        holder = None
+        for p_, slot, ch in fi.ancestors(loop):
+            if p_.get("k") == "CompoundStmt":
+                holder = p_
+                break
+        if holder is not None:
+            sts = holder.get("c", [])
+            idx = [i for i, s_ in enumerate(sts) if s_ is loop]
+            if idx and idx[0] + 1 < len(sts):
+                nxt = strip(sts[idx[0] + 1])
+                thr = [x for x in walk(sts[idx[0] + 1]) if x.get("k") == "CXXThrowExpr"]
+                succ_returns = [r for r in walk(body) if r.get("k") == "ReturnStmt" and fi.enclosing(r, ("CXXTryStmt",)) is not None]
+                breaks = [b for b in walk(body) if b.get("k") == "BreakStmt" and (fi.enclosing(b, ("SwitchStmt", "ForStmt", "WhileStmt", "DoStmt", "CXXForRangeStmt")) is loop)]      # a 'break' of a switch leaves the switch
+                if thr and always_exits(sts[idx[0] + 1]) and sts[idx[0] + 1].get("k") != "IfStmt" and succ_returns and not breaks:
+                    last_throw = thr[0]
     counter_written = False
     for n in walk(body):
         if n.get("k") in ("BinaryOperator", "CompoundAssignOperator", "UnaryOperator") and n.get("op") in ("=", "+=", "-=", "++", "--"):
